@@ -58,6 +58,8 @@ type World struct {
 	constMaps            map[*ssa.Global]*constMapInfo
 	cursorStores         map[string][2]int
 	posSum               []resolvedArg
+	lexProg              []*lbOb
+	lexProgDone          bool
 	posSumDone           bool
 	tableDepth           int
 	synonyms             map[string]string
